@@ -219,6 +219,9 @@ func cmdOrder(args []string) {
 		fcb := forged[base.ID]
 		mk := func(order []int) *Target {
 			v := fcb.Clone()
+			// dated after every effective date of the registry, so that no rule is silent only because the template is old
+			v.SetNotBefore(time.Date(2024, 3, 1, 0, 0, 0, 0, time.UTC))
+			v.SetNotAfter(time.Date(2024, 5, 30, 0, 0, 0, 0, time.UTC))
 			var nn []*forge.Node
 			for _, x := range order {
 				nn = append(nn, forge.Raw(vocab[x].raw))
@@ -269,6 +272,11 @@ func cmdOrder(args []string) {
 			for b2 := a + 1; b2 < len(reps); b2++ {
 				plan = append(plan, pr{reps[a], reps[b2]})
 			}
+		}
+		// every pair of class representatives is planted (that is where "NA at the first name of one class, finding at the first of
+		// another" shows); the budget only limits the random pairs added on top
+		if len(plan) > pairs && len(plan) <= 8000 {
+			pairs = len(plan)
 		}
 		rng.Shuffle(len(plan), func(a, b2 int) { plan[a], plan[b2] = plan[b2], plan[a] })
 		for len(plan) < pairs {
